@@ -14,22 +14,26 @@ CONSTANTS Progs,       \* sequence of client programs; an op is [op |-> "enq", k
 Clients == 1..Len(Progs)
 Early == 5
 
-VARIABLES now, q,            \* q: set of items [id, key, at] in the heap
+VARIABLES now, q, head,      \* q: set of items [id, key, at] in the heap; head: the item on top of the heap (NoItem if empty)
           tok, reset, stopC, stopped,
           lpc, lr, timer,    \* loop: program counter, peeked item, armed timer deadline (-1: none)
-          cpc, cip,          \* client: pc within the current op, index of the current op
+          cpc, cip, cop,     \* client: pc within the current op, index of the current op, the op in progress [op, key, at, id]
           nextId, executed,  \* executed: [ids: set of executed item ids, bad: some execution was early or repeated]
           wg, gone           \* gone: loop goroutines that released the token but have not yet called wg.Done
-vars == <<now, q, tok, reset, stopC, stopped, lpc, lr, timer, cpc, cip, nextId, executed, wg, gone>>
+vars == <<now, q, head, tok, reset, stopC, stopped, lpc, lr, timer, cpc, cip, cop, nextId, executed, wg, gone>>
 
 NoItem == [id |-> 0, key |-> "", at |-> 0]
-HeadOf(S) == CHOOSE x \in S : \A y \in S : x.at < y.at \/ (x.at = y.at /\ x.id <= y.id)
+NoOp == [op |-> "none", key |-> "", at |-> 0, id |-> 0]
+(* the heap orders by scheduled time only; which of several items with the same time is on top is whatever the *)
+(* heap happens to hold: `head` is the current top, re-chosen among the minimal items whenever the heap changes   *)
+MinSet(S) == {x \in S : \A y \in S : x.at <= y.at}
+Tops(S) == IF S = {} THEN {NoItem} ELSE MinSet(S)
 CurOp(c) == Progs[c][cip[c]]
 HasOp(c) == cip[c] <= Len(Progs[c])
 
-Init == /\ now = 0 /\ q = {} /\ tok = FALSE /\ reset = FALSE /\ stopC = FALSE /\ stopped = FALSE
+Init == /\ now = 0 /\ q = {} /\ head = NoItem /\ tok = FALSE /\ reset = FALSE /\ stopC = FALSE /\ stopped = FALSE
         /\ lpc = "none" /\ lr = NoItem /\ timer = -1
-        /\ cpc = [c \in Clients |-> "idle"] /\ cip = [c \in Clients |-> 1]
+        /\ cpc = [c \in Clients |-> "idle"] /\ cip = [c \in Clients |-> 1] /\ cop = [c \in Clients |-> NoOp]
         /\ nextId = 1 /\ executed = [ids |-> {}, bad |-> FALSE] /\ wg = 0 /\ gone = 0
 
 (* process(isNext) - processor.go:105-129, called with the lock held *)
@@ -38,84 +42,97 @@ ProcessEffect(isNext) ==
           ELSE /\ reset' = (reset \/ isNext) /\ UNCHANGED <<tok, lpc, wg>>
 
 (* ---- clients ---- *)
-Start(c) == /\ cpc[c] = "idle" /\ HasOp(c)
-            /\ cpc' = [cpc EXCEPT ![c] = IF CurOp(c).op = "close" THEN "close" ELSE "check"]
-            /\ UNCHANGED <<now, q, tok, reset, stopC, stopped, lpc, lr, timer, cip, nextId, executed, wg, gone>>
+(* the caller fixes the item (its scheduled time) before calling Enqueue *)
+Begin(c, o) == /\ cpc[c] = "idle"
+               /\ cop' = [cop EXCEPT ![c] = o]
+               /\ cpc' = [cpc EXCEPT ![c] = IF o.op = "close" THEN "close" ELSE "check"]
+               /\ UNCHANGED <<now, q, head, tok, reset, stopC, stopped, lpc, lr, timer, cip, executed, wg, gone>>
+Start(c) == /\ HasOp(c)
+            /\ LET o == CurOp(c) IN
+               Begin(c, [op |-> o.op, key |-> IF o.op = "close" THEN "" ELSE o.key,
+                         at |-> IF o.op = "enq" THEN now + o.dt ELSE 0, id |-> IF o.op = "enq" THEN nextId ELSE 0])
+            /\ nextId' = IF CurOp(c).op = "enq" THEN nextId + 1 ELSE nextId
 (* Enqueue/Dequeue: stopped check - processor.go:58,80 *)
 Check(c) == /\ cpc[c] = "check"
-            /\ IF stopped THEN /\ cpc' = [cpc EXCEPT ![c] = "idle"] /\ cip' = [cip EXCEPT ![c] = @ + 1]
-                          ELSE /\ cpc' = [cpc EXCEPT ![c] = "locked"] /\ UNCHANGED cip
-            /\ UNCHANGED <<now, q, tok, reset, stopC, stopped, lpc, lr, timer, nextId, executed, wg, gone>>
+            /\ IF stopped THEN /\ cpc' = [cpc EXCEPT ![c] = "idle"] /\ cip' = [cip EXCEPT ![c] = @ + 1] /\ cop' = [cop EXCEPT ![c] = NoOp]
+                          ELSE /\ cpc' = [cpc EXCEPT ![c] = "locked"] /\ UNCHANGED <<cip, cop>>
+            /\ UNCHANGED <<now, q, head, tok, reset, stopC, stopped, lpc, lr, timer, nextId, executed, wg, gone>>
 (* the critical section of Enqueue - processor.go:64-71 (the loop never holds the lock across steps, so it is free) *)
 EnqueueCS(c) ==
-  /\ cpc[c] = "locked" /\ CurOp(c).op = "enq"
-  /\ LET o == CurOp(c)
-         it == [id |-> nextId, key |-> o.key, at |-> now + o.dt]
-         wasFirst == q # {} /\ HeadOf(q).key = o.key
+  /\ cpc[c] = "locked" /\ cop[c].op = "enq"
+  /\ LET o == cop[c]
+         it == [id |-> o.id, key |-> o.key, at |-> o.at]
+         wasFirst == q # {} /\ head.key = o.key
          q2 == {x \in q : x.key # o.key} \cup {it}
-         isFirst == wasFirst \/ HeadOf(q2) = it
-     IN /\ q' = q2 /\ nextId' = nextId + 1 /\ ProcessEffect(isFirst)
+     IN \E h \in Tops(q2) :
+          /\ q' = q2 /\ head' = h
+          /\ ProcessEffect(wasFirst \/ h = it)
   /\ cpc' = [cpc EXCEPT ![c] = "idle"] /\ cip' = [cip EXCEPT ![c] = @ + 1]
-  /\ UNCHANGED <<now, stopC, stopped, lr, timer, executed, gone>>
+  /\ cop' = [cop EXCEPT ![c] = NoOp]
+  /\ UNCHANGED <<now, stopC, stopped, lr, timer, nextId, executed, gone>>
 (* the critical section of Dequeue - processor.go:85-92 *)
 DequeueCS(c) ==
-  /\ cpc[c] = "locked" /\ CurOp(c).op = "deq"
-  /\ LET o == CurOp(c)
-         wasFirst == q # {} /\ HeadOf(q).key = o.key
+  /\ cpc[c] = "locked" /\ cop[c].op = "deq"
+  /\ LET o == cop[c]
+         wasFirst == q # {} /\ head.key = o.key
      IN /\ q' = {x \in q : x.key # o.key}
+        /\ head' \in Tops({x \in q : x.key # o.key})
+        /\ (head \in {x \in q : x.key # o.key} => head' = head)          \* removing another item does not change the top
         /\ IF wasFirst THEN ProcessEffect(TRUE) ELSE UNCHANGED <<tok, reset, lpc, wg>>
   /\ cpc' = [cpc EXCEPT ![c] = "idle"] /\ cip' = [cip EXCEPT ![c] = @ + 1]
+  /\ cop' = [cop EXCEPT ![c] = NoOp]
   /\ UNCHANGED <<now, stopC, stopped, lr, timer, nextId, executed, gone>>
 (* Close - processor.go:95-103 *)
 CloseCAS(c) == /\ cpc[c] = "close"
                /\ IF stopped THEN cpc' = [cpc EXCEPT ![c] = "wgwait"] /\ UNCHANGED <<stopped, stopC>>
                              ELSE stopped' = TRUE /\ stopC' = TRUE /\ cpc' = [cpc EXCEPT ![c] = "token"]
-               /\ UNCHANGED <<now, q, tok, reset, lpc, lr, timer, cip, nextId, executed, wg, gone>>
+               /\ UNCHANGED <<now, q, head, tok, reset, lpc, lr, timer, cip, cop, nextId, executed, wg, gone>>
 CloseToken(c) == /\ cpc[c] = "token" /\ ~tok /\ tok' = TRUE          \* blocks until the loop released the token
                  /\ cpc' = [cpc EXCEPT ![c] = "wgwait"]
-                 /\ UNCHANGED <<now, q, reset, stopC, stopped, lpc, lr, timer, cip, nextId, executed, wg, gone>>
+                 /\ UNCHANGED <<now, q, head, reset, stopC, stopped, lpc, lr, timer, cip, cop, nextId, executed, wg, gone>>
 CloseWait(c) == /\ cpc[c] = "wgwait" /\ wg = 0
                 /\ cpc' = [cpc EXCEPT ![c] = "idle"] /\ cip' = [cip EXCEPT ![c] = @ + 1]
-                /\ UNCHANGED <<now, q, tok, reset, stopC, stopped, lpc, lr, timer, nextId, executed, wg, gone>>
+                /\ cop' = [cop EXCEPT ![c] = NoOp]
+                /\ UNCHANGED <<now, q, head, tok, reset, stopC, stopped, lpc, lr, timer, nextId, executed, wg, gone>>
 
 (* ---- the loop goroutine - processor.go:132-190 ---- *)
 LPeek == /\ lpc = "peek"                                             \* :150-155
          /\ IF q = {} THEN IF Fixed THEN /\ lpc' = "none" /\ gone' = gone + 1 /\ tok' = FALSE /\ UNCHANGED lr     \* token released under the lock
                                     ELSE /\ lpc' = "exit" /\ UNCHANGED <<lr, tok, gone>>
-                      ELSE /\ lr' = HeadOf(q) /\ lpc' = "signals" /\ UNCHANGED <<tok, gone>>
-         /\ UNCHANGED <<now, q, reset, stopC, stopped, timer, cpc, cip, nextId, executed, wg>>
+                      ELSE /\ lr' = head /\ lpc' = "signals" /\ UNCHANGED <<tok, gone>>
+         /\ UNCHANGED <<now, q, head, reset, stopC, stopped, timer, cpc, cip, cop, nextId, executed, wg>>
 LExit == /\ lpc = "exit" /\ tok' = FALSE /\ lpc' = "none" /\ gone' = gone + 1   \* :133-136 deferred token release
-         /\ UNCHANGED <<now, q, reset, stopC, stopped, lr, timer, cpc, cip, nextId, executed, wg>>
+         /\ UNCHANGED <<now, q, head, reset, stopC, stopped, lr, timer, cpc, cip, cop, nextId, executed, wg>>
 LGone == /\ gone > 0 /\ gone' = gone - 1 /\ wg' = wg - 1             \* wg.Done of an exiting loop goroutine
-         /\ UNCHANGED <<now, q, tok, reset, stopC, stopped, lpc, lr, timer, cpc, cip, nextId, executed>>
+         /\ UNCHANGED <<now, q, head, tok, reset, stopC, stopped, lpc, lr, timer, cpc, cip, cop, nextId, executed>>
 LSignals == /\ lpc = "signals"                                        \* :159-169
             /\ \/ stopC /\ lpc' = "exit" /\ UNCHANGED reset
                \/ reset /\ reset' = FALSE /\ lpc' = "peek"
                \/ ~stopC /\ ~reset /\ lpc' = "decide" /\ UNCHANGED reset
-            /\ UNCHANGED <<now, q, tok, stopC, stopped, lr, timer, cpc, cip, nextId, executed, wg, gone>>
+            /\ UNCHANGED <<now, q, head, tok, stopC, stopped, lr, timer, cpc, cip, cop, nextId, executed, wg, gone>>
 LDecide == /\ lpc = "decide"                                          \* :171-180
            /\ IF lr.at - now < Early THEN lpc' = "exec" /\ UNCHANGED timer
                                      ELSE lpc' = "wait" /\ timer' = lr.at
-           /\ UNCHANGED <<now, q, tok, reset, stopC, stopped, lr, cpc, cip, nextId, executed, wg, gone>>
+           /\ UNCHANGED <<now, q, head, tok, reset, stopC, stopped, lr, cpc, cip, cop, nextId, executed, wg, gone>>
 LWait == /\ lpc = "wait"                                              \* :182-199 select
          /\ \/ now >= timer /\ lpc' = "exec" /\ UNCHANGED reset
             \/ reset /\ reset' = FALSE /\ lpc' = "peek"
             \/ stopC /\ lpc' = "exit" /\ UNCHANGED reset
          /\ timer' = -1
-         /\ UNCHANGED <<now, q, tok, stopC, stopped, lr, cpc, cip, nextId, executed, wg, gone>>
+         /\ UNCHANGED <<now, q, head, tok, stopC, stopped, lr, cpc, cip, cop, nextId, executed, wg, gone>>
 LExec == /\ lpc = "exec"                                              \* execute(): :205-218
-         /\ IF q # {} /\ HeadOf(q) = lr
-              THEN /\ q' = q \ {lr} /\ lpc' = "cb"
-              ELSE /\ UNCHANGED q /\ lpc' = "peek"
-         /\ UNCHANGED <<now, tok, reset, stopC, stopped, lr, timer, cpc, cip, nextId, executed, wg, gone>>
+         /\ IF q # {} /\ head = lr
+              THEN /\ q' = q \ {lr} /\ head' \in Tops(q \ {lr}) /\ lpc' = "cb"
+              ELSE /\ UNCHANGED <<q, head>> /\ lpc' = "peek"
+         /\ UNCHANGED <<now, tok, reset, stopC, stopped, lr, timer, cpc, cip, cop, nextId, executed, wg, gone>>
 LCallback == /\ lpc = "cb"                                            \* :220 executeFn(r)
              /\ executed' = [ids |-> executed.ids \cup {lr.id},
                               bad |-> executed.bad \/ lr.id \in executed.ids \/ now < lr.at - Early]
              /\ lpc' = "peek"
-             /\ UNCHANGED <<now, q, tok, reset, stopC, stopped, lr, timer, cpc, cip, nextId, wg, gone>>
+             /\ UNCHANGED <<now, q, head, tok, reset, stopC, stopped, lr, timer, cpc, cip, cop, nextId, wg, gone>>
 
 Advance == /\ now < MaxNow /\ now' = now + 1
-           /\ UNCHANGED <<q, tok, reset, stopC, stopped, lpc, lr, timer, cpc, cip, nextId, executed, wg, gone>>
+           /\ UNCHANGED <<q, head, tok, reset, stopC, stopped, lpc, lr, timer, cpc, cip, cop, nextId, executed, wg, gone>>
 
 LoopStep == LPeek \/ LExit \/ LGone \/ LSignals \/ LDecide \/ LWait \/ LExec \/ LCallback
 ClientStep == \E c \in Clients : Start(c) \/ Check(c) \/ EnqueueCS(c) \/ DequeueCS(c) \/ CloseCAS(c) \/ CloseToken(c) \/ CloseWait(c)
